@@ -448,6 +448,207 @@ def run_server_mirror(ctx, stats, binary, label, hbin, probe):
                                  % (label, probe, path, g, w)})
 
 
+# ------------------------------------------------------------------------------- which schema is served
+
+
+def layout_of(cfg):
+    return "follow-schema" if cfg.startswith("follow") else "single-file"
+
+
+def run_served(ctx, stats, built, cfgs, hbin, probe, prelude, proved):
+    """the dimension WHICH schema the server serves: every generated server is constructed with
+    `Config{Schema: override}` for a stream of overrides (the compiled-in sources again, directed ones in
+    corpus/C16/override, seeded subset / superset / changed / mixed edits of the compiled-in SDL, unrelated schemas).
+    Contract (Lean `Served.Spec`): `__schema` and every `__type(name)` describe the override — the executable schema,
+    the one the validator uses (controlled by a query on a dropped root field). The code read through the regenerated
+    facts of that exec layout (`Served.Impl` over Gen.IntroSrc) is evaluated beside it. Then the gate queries run
+    on servers that serve a subset and a superset."""
+    pdir = os.path.join(vf.GO, "probes", probe)
+    files = ",".join(os.path.join(pdir, f) for f in sorted(os.listdir(pdir)) if f.endswith(".graphql"))
+    rc, so, se = vf.sh([hbin, "-mode", "sdl", "-files", files], timeout=120)
+    if rc != 0:
+        raise RuntimeError("probe schema does not load: " + se[-1000:])
+    compiled = json.loads(so)["schema"]
+    rc, so, se = vf.sh([hbin, "-mode", "overrides", "-files", files, "-seed", str(ctx.seed), "-tier", ctx.tier,
+                        "-corpus", os.path.join(vf.VERIF, "corpus", "C16", "override")], timeout=600)
+    if rc != 0:
+        raise RuntimeError("override generation failed: " + se[-2000:])
+    rows = [json.loads(l) for l in so.split("\n") if l]
+    for r in rows:
+        if r.get("reject"):
+            ctx.violation({"kind": "check-error", "what": "an override schema does not load", "id": r["id"], "sdl": r["sdl"],
+                           "detail": r["reject"]}, no_failing_input=True)
+    rows = [r for r in rows if not r.get("reject")]
+    cnames = sorted(t["name"] for t in compiled["types"])
+    croot = {f["name"]: f for t in compiled["types"] if t["name"] == compiled.get("query") for f in t["fields"]}
+    for r in rows:
+        r["names"] = sorted(set(cnames) | set(t["name"] for t in r["schema"]["types"]))
+        oroot = set(f["name"] for t in r["schema"]["types"] if t["name"] == r["schema"].get("query") for f in t["fields"])
+        # a compiled-in root field the override does not serve, selectable without arguments or sub-selection
+        r["dropped"] = next((n for n, f in sorted(croot.items()) if n not in oroot and not n.startswith("__")
+                             and (f["type"].get("name") in ("Int", "String", "Boolean", "ID", "Float"))
+                             and not any(a["type"].get("nn") and a.get("default") is None for a in f["args"])), None)
+    # ---- the contract and the code's reading, per (layout, override)
+    layouts = sorted(set(layout_of(c) for c in cfgs))
+    lines = ["compiled " + json.dumps(compiled)]
+    keys = []
+    for lay in layouts:
+        for r in rows:
+            lines.append("served " + json.dumps({"layout": lay, "override": r["schema"], "names": r["names"]}))
+            keys.append((lay, r["id"]))
+    out = ctx.driver("c16", lines)
+    if out[0] != "ok":
+        raise RuntimeError("driver did not accept the compiled-in schema: " + out[0][:300])
+    model = {}
+    for k, o in zip(keys, out[1:]):
+        try:
+            model[k] = json.loads(o)
+        except ValueError:
+            ctx.violation({"kind": "check-error", "what": "served driver output", "id": k[1], "detail": o[:300]}, no_failing_input=True)
+    compiled_tree = json.loads(ctx.driver("c16", ["mirror " + json.dumps(compiled)])[0])["tree"]
+    fam = lambda t: t.split(":")[0]
+    for cfg in cfgs:
+        b = built[cfg]
+        if isinstance(b, Exception):
+            continue
+        label, lay = "%s/%s" % (probe, cfg), layout_of(cfg)
+        cases = []
+        for i, r in enumerate(rows):
+            extra = " ".join('t%d: __type(name: "%s") { ...FullType }' % (j, n) for j, n in enumerate(r["names"])) + ' nope: __type(name: "NoSuchType") { name }'
+            cases.append({"id": "std/%d" % i, "query": STD_QUERY % extra, "plan": {"seed": 1, "rates": {}}, "introspection": True,
+                          "timeoutMs": 60000, "schemaSDL": r["sdl"]})
+            cases.append({"id": "off/%d" % i, "query": '{ __schema { queryType { name } } t: __type(name: "%s") { name } }' % (r["schema"].get("query") or "Query"),
+                          "plan": {"seed": 1, "rates": {}}, "timeoutMs": 60000, "schemaSDL": r["sdl"]})
+            if r["dropped"]:
+                cases.append({"id": "dropped/%d" % i, "query": "{ %s }" % r["dropped"], "plan": {"seed": 1, "rates": {}}, "introspection": True,
+                              "timeoutMs": 60000, "schemaSDL": r["sdl"]})
+        rc, ro, re_ = vf.sh([b, "-mode", "run"], inp="".join(json.dumps(c) + "\n" for c in cases), timeout=1800, env={"GOMEMLIMIT": "4GiB"})
+        if rc != 0:
+            raise RuntimeError("runner failed on the override cases: " + re_[-2000:])
+        res = {}
+        for l in ro.split("\n"):
+            if l:
+                x = json.loads(l)
+                res[x["id"]] = x
+        budget = 4
+        for i, r in enumerate(rows):
+            m = model.get((lay, r["id"]))
+            x = res.get("std/%d" % i)
+            if m is None or x is None:
+                continue
+            stats["evaluations"] += 1
+            stats["served_cases"] += 1
+            stats["dist"]["served:" + ("identity" if r["id"] == "identity" else "unrelated" if "unrelated" in r["tags"] else r["relation"])] += 1
+            stats["dist"]["served-config:" + label] += 1
+            for t in set(fam(t) for t in r["tags"]):
+                if t.startswith(("drop-", "add-", "change-")):
+                    stats["dist"]["served-edit:" + t] += 1
+            if r["id"] != "identity":
+                stats["nontrivial"].add("served:%s:%s" % (label, r["id"]))
+            base = {"config": label, "layout": lay, "override": r["id"], "relation": r["relation"], "edits": r["tags"], "override_sdl": r["sdl"]}
+            how = ("generated server %s (probe go/probes/%s, exec layout %s) constructed with Config.Schema = gqlparser.LoadSchema(override_sdl) "
+                   "[override %s, a %s of the compiled-in schema], introspection enabled" % (label, probe, lay, r["id"], r["relation"]))
+            if not m["wf"]:
+                ctx.violation(dict(base, kind="correspondence", what="an override gqlparser loaded is outside Schema.wf (hypothesis of served_mirror)"),
+                              no_failing_input=True)
+                continue
+            if x.get("crash") or x.get("hung") or x.get("gateErrors") or not x.get("payloads") or x["payloads"][0]["errors"] or x["payloads"][0]["data"] is None:
+                if budget > 0:
+                    budget -= 1
+                    ctx.violation(dict(base, kind="served-schema", what="the standard introspection query fails on a server constructed with Config.Schema",
+                                       detail=json.dumps(x.get("crash") or x.get("gateErrors") or x.get("payloads"))[:2000],
+                                       shape={"part": "served", "component": "query-fails", "layout": lay},
+                                       replay=how + ": the standard introspection query fails"))
+                stats["served_violations"] += 1
+                continue
+            data = x["payloads"][0]["data"]
+            fill_oftype(data)
+            got = names_only(data["__schema"])
+            d = [("/__schema" + p, g, w) for p, g, w in tree_diff(got, m["specTree"])]
+            for j, n in enumerate(r["names"]):
+                t = data.get("t%d" % j)
+                if t is not None:
+                    names_only({"types": [t]})
+                d += tree_diff(t, m["specTypes"][n], "/__type(%s)" % n)
+            if data.get("nope") is not None:
+                d.append(("/__type(NoSuchType)", data.get("nope"), None))
+            # does the code, read through the regenerated facts of this layout, answer something else than the contract?
+            explained, impl_equals_server = False, None
+            if m.get("layoutKnown"):
+                it, ity = m["implTree"], m["implTypes"]
+                di = [] if it == "same" else [("", it, None)] if it == "nilDeref" else tree_diff(it, m["specTree"])
+                dt = [] if ity == "same" else [("", ity, None)] if ity == "nilDeref" else [
+                    x for n in r["names"] for x in tree_diff(ity[n], m["specTypes"][n], "/__type(%s)" % n)]
+                explained = bool(di or dt)
+                if explained and it != "nilDeref" and ity != "nilDeref":
+                    impl_equals_server = not tree_diff(got, m["specTree"] if it == "same" else it) and all(
+                        not tree_diff(data.get("t%d" % j), (m["specTypes"] if ity == "same" else ity)[n]) for j, n in enumerate(r["names"]))
+            if d:
+                stats["divergences"] += 1
+                stats["served_violations"] += 1
+                path, g, w = d[0]
+                which = "__schema" if path.startswith("/__schema") else "__type"
+                # what the server answered instead: the OTHER schema of the process?
+                other = bool(r["id"] != "identity" and not tree_diff(got, compiled_tree)) if which == "__schema" else None
+                if budget > 0:
+                    budget -= 1
+                    ctx.violation(dict(base, kind="served-schema", first_difference={"path": path, "server": g, "executable_schema": w},
+                                       differences=len(d), server_describes_compiled_in_schema=other,
+                                       facts_reading=("the code read through the regenerated facts of this layout (Served.Impl over Gen.IntroSrc) departs from the contract here"
+                                                      + (" and answers exactly what the server answered" if impl_equals_server else "") if explained
+                                                      else "the regenerated facts predict the contract's answer"),
+                                       what="%s does not describe the schema the server serves" % which,
+                                       shape={"part": "served", "component": which, "layout": lay},
+                                       replay=how + ", standard introspection query (+ __type for every type name): %s is %r, the served schema says %r%s"
+                                       % (path, g, w, " — the answer is the description of the compiled-in schema" if other else "")))
+            elif explained:
+                # the server keeps the contract although the facts say otherwise: the reading of the facts is off
+                ctx.violation(dict(base, kind="correspondence", what="the code read through Gen.IntroSrc departs from the contract, the generated server does not",
+                                   shape={"part": "served", "component": "facts", "layout": lay},
+                                   replay="Served.Impl over the regenerated facts and the generated server disagree; the Spec holds on the server's answer"),
+                              no_failing_input=True)
+            # ---- disabled on the same server: both entry points answer the gate's error
+            y = res.get("off/%d" % i)
+            if y and y.get("payloads") and not y.get("gateErrors"):
+                p = y["payloads"][0]
+                errs = sorted(e["path"] + " :: " + e["message"] for e in p["errors"])
+                if p["data"] is None or p["data"].get("__schema") is not None or p["data"].get("t") is not None or \
+                        errs != ["__schema :: introspection disabled", "t :: introspection disabled"]:
+                    stats["served_violations"] += 1
+                    if budget > 0:
+                        budget -= 1
+                        ctx.violation(dict(base, kind="gate", query=y["query"], response=p, what="introspection is disabled but a server constructed with Config.Schema answers",
+                                           shape={"part": "gate", "field": ["__schema" if (p["data"] or {}).get("__schema") is not None else "__type"]},
+                                           replay=how.replace("introspection enabled", "introspection extension NOT installed") + ", run the query " + y["query"]))
+                stats["evaluations"] += 1
+            # ---- control of the premise: the override IS what executes (a dropped root field no longer validates)
+            z = res.get("dropped/%d" % i)
+            if z is not None:
+                stats["served_validator_controls"] += 1
+                if not z.get("gateErrors"):
+                    stats["served_violations"] += 1
+                    if budget > 0:
+                        budget -= 1
+                        ctx.violation(dict(base, kind="served-schema", query=z["query"], response=(z.get("payloads") or [None])[0],
+                                           what="a root field the override does not have is still accepted: the override is not the schema the executor validates against",
+                                           shape={"part": "served", "component": "validator", "layout": lay},
+                                           replay=how + ": the query %s is not rejected" % z["query"]))
+        # ---- the gate on servers that serve a subset / a superset (the hiding queries, introspection disabled)
+        n = 60 if ctx.tier == "quick" else 400
+        for rel in ("subset", "superset"):
+            # the directed one of corpus/C16/override comes first; the thorough tier adds seeded ones
+            safe = [r for r in rows if r["gateSafe"] and r["relation"] == rel and r["id"] != "identity"]
+            safe = safe[:1] + ([x for x in safe[1:] if x["id"].startswith("derived/")][:2] if ctx.tier != "quick" else [])
+            for r in safe:
+                path = os.path.join(vf.CACHE, "c16_override_%s_%s.graphql" % (rel, re.sub(r"[^A-Za-z0-9]", "_", r["id"])))
+                with open(path, "w") as f:
+                    f.write(r["sdl"])
+                stats["gate_cases_override"] = stats.get("gate_cases_override", 0) + run_gate(
+                    ctx, proved, stats, b, "%s+Config.Schema=%s(%s)" % (label, r["id"], rel), False, prelude, hbin, override=path, n=n)
+    stats["samples"].append({"served_override": rows[min(5, len(rows) - 1)]["id"], "relation": rows[min(5, len(rows) - 1)]["relation"],
+                             "edits": rows[min(5, len(rows) - 1)]["tags"]})
+
+
 # ------------------------------------------------------------------------------------------------ run
 
 
@@ -457,10 +658,12 @@ def run(ctx):
         "the schema model carries exactly what the standard introspection query reports: directives *applied* to schema elements other than @deprecated/@specifiedBy/@oneOf are not part of it",
         "the gate is modelled on the C01 execution model (field collection, null bubbling); bound introspection methods are oracle entries at the root paths; generated servers are built at check time from /repo's templates",
         "federation `_service` is checked on one federation-v2 probe schema",
+        "which schema is served: the two *ast.Schema values of a generated package (compiled-in parsedSchema, Config.Schema) and the four functions that choose between them are modelled (Model/IntroServed.lean); the facts are regenerated from the two templates by go/extract/introsrc.go and tied to the generated servers by constructing them with overrides; resolvers of fields that exist only in an override are not executed (the generated code has none)",
         "configuration around the gate: extensions are modelled by what they do to DisableIntrospection (keep / set / flip / fail under a per-request condition on the request's role and operation name); the facts about processExtensions, CreateOperationContext and extension.Introspection are regenerated by go/extract/extorder.go and the reading of those facts (Impl.effective) is tied to the real executor by running every configuration on the generated servers",
     ]
     stats = {"evaluations": 0, "dist": Counter(), "nontrivial": set(), "divergences": 0, "oracle_failures": 0,
-             "samples": [], "gate_rejected_by_validation": 0, "enabled_controls": 0, "cfg_cases": 0, "cfg_model_departures": 0, "cfg_violations": 0}
+             "samples": [], "gate_rejected_by_validation": 0, "enabled_controls": 0, "cfg_cases": 0, "cfg_model_departures": 0, "cfg_violations": 0,
+             "served_cases": 0, "served_violations": 0, "served_validator_controls": 0}
     # regenerated facts: processExtensions / CreateOperationContext / extension.Introspection (Gen/ExtOrder.lean)
     if not ctx.extract("ExtOrder"):
         # the source is outside what the translator reads (reported as a broken tie): facts with no reading, so that
@@ -470,11 +673,18 @@ def run(ctx):
                     "namespace GqlgenVerif.Gen.ExtOrder\nopen GqlgenVerif.IntroGate.Cfg\n"
                     "def facts : Facts := { slots := [], initialDisable := false, createLoops := [], introspectionExt := [] }\n"
                     "end GqlgenVerif.Gen.ExtOrder\n")
-    proved_all = ctx.prove(props=["GqlgenVerif.Props.C16", "GqlgenVerif.Props.C16Cfg"])
+    # regenerated facts: which schema NewExecutableSchema / Schema() / introspectSchema / introspectType of BOTH exec
+    # layouts read (Gen/IntroSrc.lean)
+    if not ctx.extract("IntroSrc"):
+        with open(os.path.join(vf.LEAN, "GqlgenVerif", "Gen", "IntroSrc.lean"), "w") as f:
+            f.write("/- go/extract IntroSrc FAILED on /repo's current templates: no facts -/\nimport GqlgenVerif.Model.IntroServed\n"
+                    "namespace GqlgenVerif.Gen.IntroSrc\nopen GqlgenVerif.Introspect.Served\n"
+                    "def layouts : List Layout := []\nend GqlgenVerif.Gen.IntroSrc\n")
+    proved_all = ctx.prove(props=["GqlgenVerif.Props.C16", "GqlgenVerif.Props.C16Cfg", "GqlgenVerif.Props.C16Served"])
     if not proved_all:
         ctx.cov["proof_failure"] = ctx.proof_failure
-    # the mirror / gate theorems (Props/C16.lean) stand on their own when only the configuration theorems broke
-    proved = proved_all or all("C16Cfg.lean" in str(f) for f in (ctx.proof_failure or ["?"]))
+    # the mirror / gate theorems (Props/C16.lean) stand on their own when only the configuration / served theorems broke
+    proved = proved_all or all("C16Cfg.lean" in str(f) or "C16Served.lean" in str(f) for f in (ctx.proof_failure or ["?"]))
 
     if not getattr(ctx, "driver_ok", False):
         ctx.violation({"kind": "proof", "failing": ctx.proof_failure, "what": "Lean model / driver does not build"}, no_failing_input=True)
@@ -499,6 +709,7 @@ def run(ctx):
             gate_cases += run_gate(ctx, proved, stats, b, "intro/" + cfg, False, prelude, hbin)
             run_gate_cfg(ctx, stats, b, "intro/" + cfg, False, prelude, hbin)
             run_server_mirror(ctx, stats, b, "intro/" + cfg, hbin, "intro")
+        run_served(ctx, stats, built, cfgs, hbin, "intro", prelude, proved)
         for cfg in fedcfgs:
             try:
                 b = gensrv.build_server(ctx, "introfed", cfg, extra_yml=FED_YML.format(pkg="introfed_" + cfg))
@@ -508,7 +719,7 @@ def run(ctx):
                 continue
             gate_cases += run_gate(ctx, proved, stats, b, "introfed/" + cfg, True, prelude, hbin)
             run_gate_cfg(ctx, stats, b, "introfed/" + cfg, True, prelude, hbin)
-        stats["gate_cases"] = gate_cases
+        stats["gate_cases"] = gate_cases + stats.get("gate_cases_override", 0)
 
     if not proved_all and not any(not nf for _, nf in ctx.violations) and not any(
             "proof" in open(p).read()[:200] for p, _ in ctx.violations):
@@ -517,7 +728,7 @@ def run(ctx):
     ctx.cov.update({
         "evaluations": stats["evaluations"],
         "distinct_nontrivial": len(stats["nontrivial"]),
-        "rule": "mirror: directed SDL probes (one per element class of the statement) + seeded random schemas (interface hierarchies, deprecated fields/arguments/input fields/enum values/directive arguments with and without reason, defaults of every kind, repeatable directives, descriptions, custom roots, extensions) + schemas damaged after loading + invalid SDL; non-trivial = schema with at least one deprecation, default, interface chain, directive or damage. gate: generated queries reaching __schema/__type/_service through aliases (incl. masquerading as other fields), inline/named/nested/repeated fragments, @skip/@include with literals, variables and variable defaults, merged duplicates, several operations; non-trivial = distinct (config, query) with at least one gated field collected. gate configuration: 13 directed lists of handler extensions (corpus/C16/gatecfg: extension.Introspection with a context mutator that disables / enables per role or operation, AroundOperations gating, role-rewriting and failing parameter mutators, toggles, one extension with all hooks) in EVERY registration order x roles x operations + seeded random lists of 0-6 extensions (each any subset of parameter mutator / context mutator / operation middleware, per-request conditions, the query optionally supplied by a parameter mutator) in generated, reversed and shuffled order; non-trivial = distinct (config, extension order, query) executed with the gate closed and a gated field collected",
+        "rule": "mirror: directed SDL probes (one per element class of the statement) + seeded random schemas (interface hierarchies, deprecated fields/arguments/input fields/enum values/directive arguments with and without reason, defaults of every kind, repeatable directives, descriptions, custom roots, extensions) + schemas damaged after loading + invalid SDL; non-trivial = schema with at least one deprecation, default, interface chain, directive or damage. gate: generated queries reaching __schema/__type/_service through aliases (incl. masquerading as other fields), inline/named/nested/repeated fragments, @skip/@include with literals, variables and variable defaults, merged duplicates, several operations; non-trivial = distinct (config, query) with at least one gated field collected. gate configuration: 13 directed lists of handler extensions (corpus/C16/gatecfg: extension.Introspection with a context mutator that disables / enables per role or operation, AroundOperations gating, role-rewriting and failing parameter mutators, toggles, one extension with all hooks) in EVERY registration order x roles x operations + seeded random lists of 0-6 extensions (each any subset of parameter mutator / context mutator / operation middleware, per-request conditions, the query optionally supplied by a parameter mutator) in generated, reversed and shuffled order; non-trivial = distinct (config, extension order, query) executed with the gate closed and a gated field collected. served schema: every generated server (both exec layouts) constructed with Config.Schema = the compiled-in sources again / 4 directed overrides (corpus/C16/override: public subset, superset, same elements changed, minimal) / seeded subset, superset, changed and mixed edits of the compiled-in SDL (drop or add types of every kind, fields, arguments, enum values, input fields, directive definitions, implementations, union members, the mutation root; change descriptions, defaults, own deprecations, nullability, field order, repeatable, locations) / unrelated random schemas; standard introspection query + __type for every type name of either schema, the same with introspection disabled, a query on a dropped root field (the validator uses the override), and the hiding queries on servers serving a subset and a superset; non-trivial = distinct (config, override) with an override other than the compiled-in sources",
         "input_distribution": dict(stats["dist"]),
         "correspondence_divergences": stats["divergences"],
         "go_oracle_failures": stats["oracle_failures"],
@@ -527,12 +738,16 @@ def run(ctx):
         "gate_configuration_cases": stats["cfg_cases"],
         "gate_configuration_model_departures": stats["cfg_model_departures"],
         "gate_configuration_violations": stats["cfg_violations"],
+        "served_schema_cases": stats["served_cases"],
+        "served_schema_violations": stats["served_violations"],
+        "served_schema_validator_controls": stats["served_validator_controls"],
         "rejected_sdl": stats.get("rejected_sdl", 0),
         "samples": stats["samples"][:6],
         "proved_for_all_inputs": ["rebuild_introspect", "introspect_injective", "own_deprecation", "interface_interfaces", "current_views",
                                   "types_sorted_perm", "type_by_name", "disabled_reveals_nothing", "disabled_independent_of_introspection_data",
                                   "effective_eq_spec (over the facts regenerated from processExtensions / CreateOperationContext / extension.Introspection)",
-                                  "configured_disabled_reveals_nothing", "configured_disabled_independent"],
+                                  "configured_disabled_reveals_nothing", "configured_disabled_independent",
+                                  "served_mirror / served_type_by_name / served_hides_unserved / served_disabled (over the facts regenerated from both exec-layout templates: introspection describes Config.Schema when given, the compiled-in schema otherwise)"],
         "sampled_not_proved": ["that the Lean models describe graphql/introspection and the generated gate (differential runs of this check)",
                                "default-value text re-parses to the declared value (Go-side oracle over generated defaults)",
                                "the generated __Type/__Field/... marshalling code (standard introspection query on the probe servers)"],
